@@ -20,9 +20,9 @@ ASSUMPTIONS = ["the eagerly parsed table is the reference for the lazy one (and 
                "source files are canonical and LF-terminated: otherwise byte equality of writes would contradict C04 (lazy passes text through, eager re-renders)"]
 EXHAUSTIVE_CORE = None
 
-C05_FORMATS = ["bed6", "narrowpeak", "bdg", "fastq", "fasta2", "vcf", "sam", "bed3", "csv4", "ssv4"]
-INT_FIELDS = {"bed6": ["start", "stop", "score"], "narrowpeak": ["start", "stop", "summit"], "bdg": ["start", "stop"], "vcf": ["position"], "sam": ["position", "mapq", "flag"], "bed3": ["start", "stop"], "fastq": [], "fasta2": [], "csv4": ["start", "stop", "score"], "ssv4": ["start", "stop", "score"]}
-STR_FIELDS = {"bed6": ["name", "chromosome"], "narrowpeak": ["name"], "bdg": ["chromosome"], "vcf": ["id"], "sam": ["name", "cigar"], "bed3": ["chromosome"], "fastq": ["name", "sequence"], "fasta2": ["name", "sequence"], "csv4": ["chromosome"], "ssv4": ["chromosome"]}
+C05_FORMATS = ["bed6", "narrowpeak", "bdg", "fastq", "fasta2", "vcf", "sam", "bed3", "csv4", "ssv4", "bed12"]
+INT_FIELDS = {"bed6": ["start", "stop", "score"], "narrowpeak": ["start", "stop", "summit"], "bdg": ["start", "stop"], "vcf": ["position"], "sam": ["position", "mapq", "flag"], "bed3": ["start", "stop"], "fastq": [], "fasta2": [], "csv4": ["start", "stop", "score"], "ssv4": ["start", "stop", "score"], "bed12": ["start", "score", "thick_start"]}
+STR_FIELDS = {"bed6": ["name", "chromosome"], "narrowpeak": ["name"], "bdg": ["chromosome"], "vcf": ["id"], "sam": ["name", "cigar"], "bed3": ["chromosome"], "fastq": ["name", "sequence"], "fasta2": ["name", "sequence"], "csv4": ["chromosome"], "ssv4": ["chromosome"], "bed12": ["name", "chromosome"]}
 
 
 def preload():
@@ -205,13 +205,16 @@ def run(ctx):
                 ctx.judged(key, nt)
                 continue
             if op == "write":
+                # a table read with one delimiter may be written with the other (csv <-> semicolon separated): the writer's layout counts, in both modes
+                other_layout = fname in ("csv4", "ssv4") and r.random() < 0.35
+                wbt = tables.get_buffer_type(FORMATS["ssv4" if fname == "csv4" else "csv4"].buffer) if other_layout else bt
                 def wr(t, tag):
                     p = ctx.path("c05" + tag + fmt.suffix)
-                    with bnp.open(p, "w", buffer_type=bt) as f:
+                    with bnp.open(p, "w", buffer_type=wbt) as f:
                         f.write(t)
                     return open(p, "rb").read().decode("latin1")
                 res = both(lambda: wr(L, "l"), lambda: wr(E, "e"))
-                history.append(["write"])
+                history.append(["write"] if not other_layout else ["write", "with-the-other-delimiter"])
                 if res[0] == "raised-one":
                     one_sided(res[1], res[2])
                     return
@@ -453,6 +456,12 @@ def run(ctx):
                     newstate = [state[i] for i in ii]
                 res = both(lambda: L[idx], lambda: E[idx])
                 history.append(["index", kind, str(idx)[:60]])
+            elif k < 0.5 and m:
+                # selections that keep nothing, joined: a table without records
+                none_ = np.zeros(m, dtype=bool)
+                res = both(lambda: np.concatenate([L[none_], L[:0]]), lambda: np.concatenate([E[none_], E[:0]]))
+                newstate = []
+                history.append(["concat", "two-empty-selections", []])
             elif k < 0.8 and m:
                 # concatenate with a selection of the table as it is now, in either order, or with itself
                 ii = sorted(r.sample(range(m), r.randint(1, m))) if r.random() < 0.6 else [r.randrange(m) for _ in range(r.randint(1, 3))]
